@@ -86,7 +86,7 @@ def main():
             demo = meta.get("demo", {})
             demofiles = [f for f in os.listdir(dst) if f.endswith(".go")]
 
-            cmd = demo.get("cmd", "")
+            cmd = re.sub(r"\s+\([^()]*\)\s*$", "", demo.get("cmd", ""))  # drop a trailing remark in parentheses
             # make the paths the demonstration's command may refer to exist in the scratch worktree
             for sub in ("SEEDED/1", "SEEDED/2", "SEEDED_DEMO"):
                 d = os.path.join(wt, sub)
